@@ -227,6 +227,101 @@ fn arb_fault() -> impl Strategy<Value = ROp> {
     ]
 }
 
+/// The inactivity timeout used by cases that exercise the stop-vote window.
+pub const T_VOTE: u64 = 300;
+
+fn arb_request() -> impl Strategy<Value = ROp> {
+    prop_oneof![
+        5 => (any::<u16>(), arb_req_lane()).prop_map(|(r, lane)| ROp::Sim(Op::Link { r, lane })),
+        2 => (any::<u16>(), arb_req_lane()).prop_map(|(r, lane)| ROp::Sim(Op::Sync { r, lane })),
+        2 => (any::<u16>(), arb_req_lane()).prop_map(|(r, lane)| ROp::Sim(Op::Unlink { r, lane })),
+        1 => (any::<u16>(), arb_req_lane()).prop_map(|(r, lane)| ROp::Sim(Op::Cmd { r, lane, body: "7".into() })),
+    ]
+}
+
+fn arb_pump_all() -> impl Strategy<Value = ROp> {
+    (any::<u16>(), prop_oneof![3 => Just(usize::MAX), 1 => 1usize..40]).prop_map(|(r, n)| ROp::Sim(Op::Pump { r, n }))
+}
+
+fn arb_small_poll() -> impl Strategy<Value = ROp> {
+    (1usize..4).prop_map(|k| ROp::Sim(Op::Poll { k }))
+}
+
+/// Request, optionally written to the agent right away, optionally followed by a few polls.
+fn arb_request_step() -> impl Strategy<Value = Vec<ROp>> {
+    (arb_request(), proptest::option::weighted(0.7, arb_pump_all()), proptest::option::weighted(0.6, arb_small_poll())).prop_map(|(rq, pump, poll)| {
+        let mut v = vec![rq];
+        v.extend(pump);
+        v.extend(poll);
+        v
+    })
+}
+
+fn arb_attach_small() -> impl Strategy<Value = ROp> {
+    (arb_small_cap(), arb_small_cap()).prop_map(|(in_cap, out_cap)| ROp::Sim(Op::Attach { in_cap: in_cap.max(40), out_cap }))
+}
+
+/// "Stop-vote window": the agent is left quiet for about the inactivity timeout so that some of
+/// the read / write / HTTP tasks have voted to stop (the read task's timer is restarted by traffic that
+/// never reaches the write task: attachments, commands, unanswered syncs), then new attachments and
+/// requests arrive with only a few polls in between, around a terminator (agent end, stop trigger, lane
+/// failure, a further timeout), so that requests and lane events land between the individual votes
+/// and the moment the stop becomes unanimous.
+fn arb_window() -> impl Strategy<Value = Vec<ROp>> {
+    let read_only = prop_oneof![
+        2 => arb_attach_small().prop_map(|a| vec![a]),
+        2 => (any::<u16>(), 0u8..3, arb_small_poll()).prop_map(|(r, lane, p)| vec![ROp::Sim(Op::Cmd { r, lane, body: "7".into() }), ROp::Sim(Op::Pump { r, n: usize::MAX }), p]),
+        2 => (any::<u16>(), 0u8..3, arb_small_poll()).prop_map(|(r, lane, p)| vec![ROp::Sim(Op::Sync { r, lane }), ROp::Sim(Op::Pump { r, n: usize::MAX }), p]),
+        1 => Just(vec![]),
+    ];
+    let terminator = prop_oneof![
+        6 => Just(vec![ROp::AgentEnd]),
+        1 => Just(vec![ROp::Sim(Op::Stop)]),
+        2 => (0u8..3).prop_map(|lane| vec![ROp::BadTag { lane }, ROp::LaneFlush { lane, n: usize::MAX }]),
+        2 => (0u8..3, any::<u8>()).prop_map(|(lane, shape)| vec![ROp::Emit { lane, id: 0, shape }, ROp::LaneFlush { lane, n: usize::MAX }]),
+        2 => prop_oneof![Just(T_VOTE - 1), Just(T_VOTE), Just(T_VOTE + 1)].prop_map(|ms| vec![ROp::Sim(Op::Advance { ms })]),
+        1 => Just(vec![]),
+    ];
+    let after = prop_oneof![
+        3 => arb_request_step(),
+        2 => arb_pump_all().prop_map(|p| vec![p]),
+        3 => arb_small_poll().prop_map(|p| vec![p]),
+        1 => (0u8..3, arb_nbytes()).prop_map(|(lane, n)| vec![ROp::LaneFlush { lane, n }]),
+        1 => arb_attach_small().prop_map(|a| vec![a]),
+    ];
+    (
+        (0u64..T_VOTE, read_only, prop_oneof![Just(-1i64), Just(0), Just(1), Just(50), Just(150)], any::<bool>(), 1usize..6),
+        proptest::collection::vec(arb_attach_small(), 0..3),
+        proptest::collection::vec(arb_request_step(), 1..4),
+        proptest::option::weighted(0.5, arb_small_poll()),
+        terminator,
+        proptest::collection::vec(after, 0..5),
+    )
+        .prop_map(|((a, read_only, d, split, k1), attaches, requests, poll_before_end, terminator, after)| {
+            let mut v = vec![ROp::Sim(Op::Settle), ROp::Sim(Op::Advance { ms: a })];
+            v.extend(read_only);
+            let b = (T_VOTE as i64 - a as i64 + d).max(1) as u64;
+            if split && b > 2 {
+                v.push(ROp::Sim(Op::Advance { ms: b / 2 }));
+                v.push(ROp::Sim(Op::Poll { k: 1 }));
+                v.push(ROp::Sim(Op::Advance { ms: b - b / 2 }));
+            } else {
+                v.push(ROp::Sim(Op::Advance { ms: b }));
+            }
+            v.push(ROp::Sim(Op::Poll { k: k1 }));
+            v.extend(attaches);
+            for r in requests {
+                v.extend(r);
+            }
+            v.extend(poll_before_end);
+            v.extend(terminator);
+            for a in after {
+                v.extend(a);
+            }
+            v
+        })
+}
+
 pub fn arb_case(max_ops: usize) -> impl Strategy<Value = Case> {
     (
         arb_params(),
@@ -236,14 +331,24 @@ pub fn arb_case(max_ops: usize) -> impl Strategy<Value = Case> {
         proptest::collection::vec(arb_rop(), 1..max_ops),
         // faults inserted at generated positions (0-2 per case)
         proptest::collection::vec((any::<u16>(), arb_fault(), any::<bool>()), 0..3),
+        // a stop-vote window at the end of the case (30 %)
+        proptest::option::weighted(0.3, (arb_window(), prop_oneof![3 => Just(1usize), 2 => Just(2), 1 => Just(4)], 1usize..4)),
     )
-        .prop_map(|(params, lanes, allow_empty, bad_keys, mut ops, faults)| {
+        .prop_map(|(mut params, lanes, allow_empty, bad_keys, mut ops, faults, window)| {
             for (pos, f, settle_first) in faults {
                 let at = pick_index(pos, ops.len() + 1);
                 ops.insert(at, f);
                 if settle_first {
                     ops.insert(at, ROp::Sim(Op::Settle));
                 }
+            }
+            if let Some((w, queue, keep)) = window {
+                params.inactive_timeout_ms = T_VOTE;
+                params.attachment_queue = queue;
+                // a short random prologue (the window needs a running agent with remotes attached)
+                ops.truncate(ops.len().min(keep * 8));
+                ops.retain(|o| !matches!(o, ROp::AgentEnd | ROp::Sim(Op::Stop) | ROp::Sim(Op::Advance { .. })));
+                ops.extend(w);
             }
             let mut next = 1u32;
             for op in ops.iter_mut() {
@@ -628,6 +733,12 @@ pub struct Obs {
     pub done_at_end: bool,
     pub result: Option<Result<(), String>>,
     pub init_failed: bool,
+    /// Stop-vote model (harness side, op granularity): a request was fully written while at least one
+    /// but not all of the read / write / HTTP tasks had an outstanding stop vote and the agent ran.
+    pub req_while_vote: bool,
+    /// A request that makes the write task schedule a write (link, unlink, anything but a command
+    /// for a missing lane) was written while the write task's own vote was outstanding.
+    pub coord_while_write_voted: bool,
 }
 
 fn settle_all(sim: &mut Sim, lanes: &mut [HLane], clock: &AtomicU64) {
@@ -688,6 +799,13 @@ pub fn execute(case: &Case) -> Obs {
         let mut stop_at = None;
         let mut agent_end_at = None;
         let mut dropped_at: Vec<Option<u64>> = vec![];
+        // stop-vote model
+        let t_vote = case.params.inactive_timeout_ms;
+        let (mut now_ms, mut last_write_act, mut last_read_act) = (0u64, 0u64, 0u64);
+        let (mut write_voted, mut read_voted, mut http_voted) = (false, false, false);
+        let mut seen_written: Vec<usize> = vec![];
+        let mut seen_flushed: Vec<usize> = vec![0; lanes.len()];
+        let (mut req_while_vote, mut coord_while_write_voted) = (false, false);
         if !init_failed {
             for op in &case.ops {
                 match op {
@@ -772,6 +890,60 @@ pub fn execute(case: &Case) -> Obs {
                     }
                     ROp::ProbeRead { .. } => {}
                 }
+                // ---- stop-vote model
+                if let ROp::Sim(Op::Advance { ms }) = op {
+                    now_ms += ms;
+                }
+                if matches!(op, ROp::Sim(Op::Attach { .. })) {
+                    last_read_act = now_ms;
+                    read_voted = false;
+                }
+                seen_written.resize(sim.remotes.len(), 0);
+                for (ri, r) in sim.remotes.iter().enumerate() {
+                    let written = r.sent.iter().filter(|s| s.3.is_some()).count();
+                    for s in r.sent.iter().filter(|s| s.3.is_some()).skip(seen_written[ri]) {
+                        let ghost = GHOST_NAMES.contains(&s.0.as_str());
+                        let coord = match s.1 {
+                            Req::Link | Req::Unlink => true,
+                            Req::Sync => ghost,
+                            Req::Command(_) => false,
+                        };
+                        let running = !sim.is_done();
+                        let votes = [write_voted, read_voted, http_voted].iter().filter(|x| **x).count();
+                        if running && votes >= 1 && votes < 3 {
+                            req_while_vote = true;
+                        }
+                        if running && coord && write_voted {
+                            coord_while_write_voted = true;
+                        }
+                        last_read_act = now_ms;
+                        read_voted = false;
+                        if coord {
+                            last_write_act = now_ms;
+                            write_voted = false;
+                        }
+                    }
+                    seen_written[ri] = written;
+                }
+                for (li, l) in lanes.iter().enumerate() {
+                    let flushed = l.emissions.iter().filter(|e| e.flushed.is_some()).count();
+                    if flushed > seen_flushed[li] {
+                        seen_flushed[li] = flushed;
+                        last_write_act = now_ms;
+                        write_voted = false;
+                    }
+                }
+                if matches!(op, ROp::Sim(Op::Poll { .. }) | ROp::Sim(Op::Settle) | ROp::ProbeRead { .. }) && !sim.is_done() {
+                    if !sim.remotes.is_empty() && now_ms - last_write_act >= t_vote {
+                        write_voted = true;
+                    }
+                    if now_ms - last_read_act >= t_vote {
+                        read_voted = true;
+                    }
+                    if now_ms >= t_vote {
+                        http_voted = true;
+                    }
+                }
             }
         }
         // quiescent checkpoint with whatever is still running
@@ -836,6 +1008,8 @@ pub fn execute(case: &Case) -> Obs {
             done_at_end,
             result: sim.result.clone(),
             init_failed,
+            req_while_vote,
+            coord_while_write_voted,
         }
     })
 }
